@@ -366,6 +366,7 @@ impl Tracer {
         cfg["L"] = json!(lat);
         json!({
             "live": true,
+            "s": self.s,
             "D": D,
             "nv": dt.number_of_vertices(),
             "nc": dt.number_of_cells(),
